@@ -800,6 +800,29 @@ fn main()
 		emit(format!("P {}", hex_bytes(s.as_bytes())), &mut out);
 	}
 	for p in corpus_projects() { emit(p.fmt_case(), &mut out); }
+	// every corner of 64-bit arithmetic, spelled as the tokenizer allows, in each way a value can reach the operator:
+	// literally, through constants defined before, through constants defined after (the simplifier then works symbolically)
+	{
+		let min = "(0 - 9223372036854775807 - 1)"; let max = "9223372036854775807";
+		let corners: Vec<(String, String, &str)> = vec![
+			(min.into(), "(0 - 1)".into(), "%"), (min.into(), "(0 - 1)".into(), "/"), (min.into(), "(0 - 1)".into(), "*"), (min.into(), "1".into(), "-"), (max.into(), "1".into(), "+"),
+			("0".into(), min.into(), "-"), ("1".into(), "63".into(), "<<"), ("1".into(), "64".into(), "<<"), ("(0 - 1)".into(), "64".into(), ">>"), ("1".into(), "(0 - 1)".into(), "<<"),
+			(max.into(), max.into(), "*"), (min.into(), min.into(), "+"), ("5".into(), "0".into(), "/"), ("5".into(), "0".into(), "%"), (min.into(), "0".into(), "%"),
+			("(1 << 63)".into(), "(0 - 1)".into(), "%"), ("(1 << 62)".into(), "2".into(), "*"), (min.into(), "2".into(), "/"), (max.into(), "(0 - 1)".into(), "%")];
+		for (a, b, op) in corners.iter()
+		{
+			for slot in [".du32 {};", ".du8 {};", "MOVS r0, {};", "LDR r0, [r1 + ({})];", ".const ZZ9, {};", ".addr {};"]
+			{
+				let direct = format!(".addr 0x100; {}", slot.replace("{}", &format!("{} {} {}", a, op, b)));
+				let before = format!(".addr 0x100; .const ca, {}; .const cb, {}; {}", a, b, slot.replace("{}", &format!("ca {} cb", op)));
+				let after = format!(".addr 0x100; {} .const ca, {}; .const cb, {};", slot.replace("{}", &format!("ca {} cb", op)), a, b);
+				let half = format!(".addr 0x100; .const ca, {}; {} .const cb, {};", a, slot.replace("{}", &format!("ca {} cb", op)), b);
+				let neg = format!(".addr 0x100; {}", slot.replace("{}", &format!("-({} {} {})", a, op, b)));
+				let reg = format!(".addr 0x100; {}", slot.replace("{}", &format!("(r1 + {}) {} {}", a, op, b)));
+				for t in [direct, before, after, half, neg, reg] { emit(format!("P {}", hex_bytes(t.as_bytes())), &mut out); }
+			}
+		}
+	}
 	// every corpus text also with one structural byte inserted at every position (small texts: exhaustive)
 	for s in CORPUS.iter().filter(|s| s.len() <= 24)
 	{
